@@ -447,9 +447,18 @@ func (e *ex) Do(op string) core.Result {
 		e.held = nil
 		first.Impl = strings.Join(out, " | ")
 		return first
-	case "path":
+	case "path", "pathm":
 		if e.fx == nil {
 			e.fx = newFixture()
+		}
+		var mapKey, mapVal []byte
+		if t[0] == "pathm" { // pathm <root> <key> <value> <decoded path> [<raw target>]: one explicit path mapping on the modifier
+			if len(t) < 5 {
+				return core.Result{Impl: "bad-op"}
+			}
+			mapKey, _ = core.Unhex(t[2])
+			mapVal, _ = core.Unhex(t[3])
+			t = append([]string{"path", t[1]}, t[4:]...)
 		}
 		rootSym, _ := core.Unhex(t[1])
 		up, _ := core.Unhex(t[2])
@@ -467,6 +476,10 @@ func (e *ex) Do(op string) core.Result {
 		}
 		res := proxyutil.NewResponse(200, strings.NewReader("original"), req)
 		m := static.NewModifier(filepath.Join(e.fx.tmp, string(rootSym)))
+		if mapKey != nil {
+			m.SetExplicitPathMappings(map[string]string{string(mapKey): string(mapVal)})
+			core.Count("pathm:key-slash-" + map[bool]string{true: "1", false: "0"}[strings.HasSuffix(string(mapKey), "/")])
+		}
 		err := m.ModifyResponse(res)
 		var b []byte
 		var rerr error
@@ -846,6 +859,55 @@ func (P) Gen(r *core.Rand, tier string, emit func([]string)) {
 		}
 		if len(ops) > 0 {
 			emit(ops)
+		}
+	}
+	// explicit path mappings (SetExplicitPathMappings): keys that look like files and like directories
+	// (trailing slash), benign values under the root, request paths that hit the key exactly, lie below it,
+	// and climb out from below it
+	nMap := 25
+	if tier == "thorough" {
+		nMap = 500
+	}
+	{
+		cp := *r // own stream
+		rm := (&cp).Fork()
+		rm.U64()
+		keys := []string{"/m", "/assets/", "/assets", "/sub/", "/sub", "/", "/a.txt", "/x/y/", "/%61ssets/"}
+		vals := []string{"a.txt", "sub/b.txt", "sub", "sub/deep/c.txt", "/a.txt", "nonexistent", "sub/deep"}
+		tails := []string{"", "a.txt", "b.txt", "../a.txt", "../../secret.txt", "../../../secret.txt", "x/../../..", "deep/../../../../secret.txt",
+			"..%2f..%2fsecret.txt", "%2e%2e/%2e%2e/secret.txt", "../rootx/d.txt", "../../rootx/d.txt", "./b.txt", "//b.txt", "..;v=1/../secret.txt"}
+		for i := 0; i < nMap; i++ {
+			var ops []string
+			root := rm.Pick("/T/root", "/T/root/", "/T/root/sub", "/T/./root//")
+			k := keys[rm.Intn(len(keys))]
+			v := vals[rm.Intn(len(vals))]
+			for j := 0; j < 10; j++ {
+				var tg string
+				switch rm.Intn(5) {
+				case 0:
+					tg = strings.TrimSuffix(k, "/")
+				case 1:
+					tg = genTarget(rm)
+				default:
+					base := k
+					if !strings.HasSuffix(base, "/") {
+						base += "/"
+					}
+					tg = base + tails[rm.Intn(len(tails))]
+				}
+				p, ok := urlPathOf(tg)
+				if !ok {
+					continue
+				}
+				op := "pathm " + core.HexS(root) + " " + core.HexS(k) + " " + core.HexS(v) + " " + core.HexS(p)
+				if tg != "" {
+					op += " " + core.HexS(tg)
+				}
+				ops = append(ops, op)
+			}
+			if len(ops) > 0 {
+				emit(ops)
+			}
 		}
 	}
 	for i := 0; i < nLib; i++ {
